@@ -638,7 +638,9 @@ class DoctestParser:
             # to fix #108
             # Only iterate through non-empty lines otherwise tokenize will stop short
             # TODO: we probably could just save the tokens if we got them earlier?
-            iterable = (line for line in exec_source_lines if line)
+            # Only the final statement is evaluated, so only its lines matter
+            final_lines = exec_source_lines[ps1_linenos[-1]:] if ps1_linenos else exec_source_lines
+            iterable = (line for line in final_lines if line)
             def _readline():
                 return next(iterable)
             # We cannot eval a statement with a semicolon in it
